@@ -30,7 +30,7 @@ func AddDeleteChildren(index configapi.Index, changeValues map[string]*configapi
 		// if this pathValue has to be deleted, then we need to search for all children of this pathValue
 		if changeValue.Deleted {
 			for _, value := range configStore {
-				if strings.HasPrefix(value.Path, changeValue.Path) && !strings.EqualFold(value.Path, changeValue.Path) {
+				if isDescendantPath(value.Path, changeValue.Path) {
 					updChangeValues[value.Path] = value
 					updChangeValues[value.Path].Index = index
 					updChangeValues[value.Path].Deleted = true
@@ -43,4 +43,14 @@ func AddDeleteChildren(index configapi.Index, changeValues map[string]*configapi
 		}
 	}
 	return updChangeValues
+}
+
+// isDescendantPath reports whether path lies strictly below parent: parent followed by the start of
+// a child element ('/') or of a list key ('['). A sibling whose name merely continues the parent's
+// text (/a/bc for /a/b) is not a descendant.
+func isDescendantPath(path string, parent string) bool {
+	if len(path) <= len(parent) || !strings.HasPrefix(path, parent) {
+		return false
+	}
+	return path[len(parent)] == '/' || path[len(parent)] == '['
 }
